@@ -52,7 +52,7 @@ func readOnlyMethodNames(pk *types.Package) map[string]bool {
 // pathStoredTypes: the named types of pkg/packet/bgp whose values can be stored in a
 // table.Path: implementers of the attribute and NLRI interfaces, closed under field
 // types (struct fields, elements, and implementers of bgp interfaces used as fields).
-func (c *Ctx) pathStoredTypes() map[*types.Named]bool {
+func (c *Ctx) pathStoredTypes(extraRoots ...string) map[*types.Named]bool {
 	pk := c.P.Pkg("pkg/packet/bgp")
 	out := map[*types.Named]bool{}
 	if pk == nil {
@@ -98,6 +98,17 @@ func (c *Ctx) pathStoredTypes() map[*types.Named]bool {
 			add(n)
 		}
 	}
+	// further roots: struct types that are shared between goroutines although no path stores them (the received
+	// OPEN: fsm.recvOpen is read by the management context, handed to watchers and serialised by the BMP goroutine)
+	for _, root := range extraRoots {
+		if o, ok := sc.Lookup(root).(*types.TypeName); ok {
+			if n, ok := o.Type().(*types.Named); ok {
+				add(n)
+				continue
+			}
+		}
+		c.R.Undec("E2d.universe", "-", "anchor:"+root, "-", "type not found")
+	}
 	var visit func(t types.Type, d int)
 	visit = func(t types.Type, d int) {
 		if d > 6 {
@@ -142,8 +153,8 @@ func (c *Ctx) pathStoredTypes() map[*types.Named]bool {
 }
 
 // rulePurity (E2d): read-only methods of codec objects do not write through their receiver.
-func (c *Ctx) rulePurity(rule string, pkgs []string, min int) {
-	universe := c.pathStoredTypes()
+func (c *Ctx) rulePurity(rule string, pkgs []string, min int, extraRoots ...string) {
+	universe := c.pathStoredTypes(extraRoots...)
 	c.R.Extra["E2d_universe_types"] = len(universe)
 	r := c.R
 	e := c.ownEng()
